@@ -18,7 +18,7 @@ MAXO = 300
 
 
 def plan(tier):
-    n = 250 if tier == "quick" else 4000
+    n = 750 if tier == "quick" else 4000
     return [{"kind": "hyp", "n": n, "which": "spans" if i % 2 == 0 else "data"} for i in range(16)]
 
 
